@@ -1139,6 +1139,9 @@ func (c *Conn) validFrame(opcode MessageType, fin, res1, res2, res3, expectingFr
 	if expectingFragments && (opcode == TextMessage || opcode == BinaryMessage) {
 		return ErrFragmentsShouldNotHaveBinaryOrTextMessage
 	}
+	if !expectingFragments && opcode == FragmentMessage {
+		return ErrInvalidFragmentMessage
+	}
 	return nil
 }
 
